@@ -85,6 +85,41 @@ def parse_flat(out: str):
     return res
 
 
+END2 = 1114114
+
+
+def parse_flat2(out: str):
+    """Two-level results: list (per case) of lists (per item) of tokens; cases end with END2."""
+    m = re.search(r"=\s*\[(.*?)\]\s*(?:%N)?\s*:\s*list N", out, re.S)
+    if not m:
+        if re.search(r"=\s*\[\s*\]", out):
+            return []
+        raise ValueError("cannot parse cases output: " + out[-500:])
+    nums = [int(x) for x in re.findall(r"\d+", m.group(1))]
+    cases, items, cur = [], [], []
+    for n in nums:
+        if n == END:
+            items.append(cur)
+            cur = []
+        elif n == END2:
+            cases.append(items)
+            items = []
+        else:
+            cur.append(n)
+    return cases
+
+
+def decode_msg(tokens):
+    """-> (status_name, None | (S, F, V))"""
+    st = ["OK", "UNDEFINED", "RESTRICTED"][tokens[0]]
+    if tokens[1] == 0:
+        return (st, None)
+    body = tokens[2:]
+    i = body.index(SEP)
+    j = body.index(SEP, i + 1)
+    return (st, (txt(body[:i]), txt(body[i + 1 : j]), txt(body[j + 1 :])))
+
+
 def txt(tokens):
     return "".join(chr(c) for c in tokens)
 
